@@ -38,7 +38,7 @@ GEN_SPEC = {"imports": ["From God Require Import C01.GenEnv."], "items": [
     {"kind": "func", "file": "lib/breaker/breaker.go", "name": "defaultAcceptable", "as": "default_acceptable"},
 ]}
 COQ_FILES = ["theories/C01/Props.v", "theories/C01/Link.v", "theories/C01/Proofs.v", "theories/C01/Registry.v"]
-QUICK_N = 340
+QUICK_N = 360
 THOROUGH_N = 8000
 SHARD = 100
 RULE = ("breaker histories of 20-140 events over 1-3 registry names through the public Breaker: Begin(kind in Do/DoWithAcceptable/"
@@ -55,9 +55,9 @@ RULE = ("breaker histories of 20-140 events over 1-3 registry names through the 
         "error), 200 calls each; sqlx call sites (all 7: ExecCtx PrepareCtx QueryRow[s][Partial]Ctx TransactCtx x "
         "{ErrNoRows, ErrTxDone, Canceled, other; MySQL 1062/1000 under NewMySQL's option}) and redis call sites (all 7: HGet LPop "
         "ZScore RPop Get Incr ZRank x {ok, cancelled ctx, redis.Nil, WRONGTYPE}) against miniredis, 200 calls each; server "
-        "StreamBreakerInterceptor like the unary one; 6 fixed (per side: expiring caller deadline x120 after <= 5 cancelled calls; cancelled-only) + 12 random mixed streams (thorough 150) of 40-160 calls through the client / server "
+        "StreamBreakerInterceptor like the unary one; per run 6 fixed (per side: expiring caller deadline x120 after <= 5 cancelled calls; cancelled-only) + 12 random mixed streams (thorough 150) of 40-160 calls through the client / server "
         "unary / server stream interceptor with live, expired-deadline and cancelled caller contexts and panics; "
-        "registry stream: 6 cases (thorough 40) x 200 fresh names, G = 2..8 goroutines making "
+        "8 identity streams (two full method names sharing a base name: Ledger/Get vs Profile/Get, User/Watch vs health Watch; three HTTP routes GET/POST /a/get, GET /b/get: one name keeps failing, the others only succeed) and 4 engine streams (api/engine.go bindRoute chain, Config.Timeout 0 and > 0, a handler panicking on every request); sustained interceptor streams for every gRPC code 0..16 and 17, 20, 99; registry stream: 6 cases (thorough 40) x 200 fresh names, G = 2..8 goroutines making "
         "their first use of the name together through Get / Do / DoWithAcceptable with the all-miss interleaving forced "
         "(driver holds the write lock until all are parked in RLock), then 50 failures through the first handle and probes "
         "through the last handle and through Do(name); non-trivial = a history with at least one rejection and "
@@ -191,8 +191,11 @@ def gen_history(rng):
 HTTP_FIXED = [100, 200, 204, 301, 404, 418, 499, 500, 501, 502, 503, 504, 599]
 
 
+GRPC_CODES = list(range(17)) + [17, 20, 99]      # every named code and a few unnamed numeric ones
+
+
 def pred_cases(rng, tier):
-    out = [{"kind": "p", "which": 0, "arg": c} for c in range(17)]
+    out = [{"kind": "p", "which": 0, "arg": c} for c in GRPC_CODES]
     out += [{"kind": "p", "which": 1, "arg": a} for a in (0, 1, 2, 3, 5, 10, 11, 12, 13, 15)]
     out += [{"kind": "p", "which": 2, "arg": a} for a in (0, 3, 4, 5)]
     if tier == "thorough":
@@ -213,7 +216,7 @@ def pred_cases(rng, tier):
         out += [{"kind": "p", "which": 8, "arg": site * 100 + cl, "site": site, "cl": cl} for cl in (0, 3, 4, 5)]
     # RPC breaker interceptors: every gRPC code returned, and panics (string / error)
     for which in (5, 6, 9):
-        out += [{"kind": "p", "which": which, "arg": c} for c in range(17)]
+        out += [{"kind": "p", "which": which, "arg": c} for c in GRPC_CODES]    # one sustained stream per code, every run
         out += [{"kind": "p", "which": which, "arg": 100 * p + c} for p in (1, 2) for c in (0, 5)]
     return out
 
@@ -267,7 +270,49 @@ def gen_mixed(rng, side=None):
     else:
         for _ in range(rng.randint(40, 160)):
             calls.append(one("any"))
+    return {"kind": "m", "side": side, "calls": [c + [0] for c in calls]}
+
+
+def gen_identity(rng, side):
+    """two methods sharing their base name (names 0/1: /pkg.Ledger/Get vs /pkg.Profile/Get; 2/3: a user Watch next to a
+    health-style Watch) resp. three HTTP routes (GET /a/get, POST /a/get, GET /b/get): one keeps failing, the others
+    only succeed, interleaved and in phases -- failures under one name must never reject another"""
+    http = side >= 3
+    names = rng.choice([[0, 1], [2, 3], [1, 0], [3, 2]]) if not http else rng.choice([[0, 1, 2], [1, 0, 2], [2, 0, 1]])
+    badn, good = names[0], names[1:]
+    bad = (lambda: rng.choice([[4, 0], [5, 0], [0, 500], [0, 503]])) if http else \
+          (lambda: rng.choice([[0, rng.choice([4, 13, 14, 15, 12])], [1, 0], [4, 0]]))
+    ok = (lambda: rng.choice([[0, 200], [1, 0], [2, 0], [0, 404]])) if http else \
+         (lambda: rng.choice([[0, 0], [2, 0], [0, 16], [0, 5]]))
+    calls = []
+    for _ in range(rng.randint(60, 90)):
+        calls.append(bad() + [badn])
+        if rng.random() < 0.3:
+            calls.append(ok() + [rng.choice(good)])
+    for _ in range(rng.randint(60, 90)):
+        calls.append(ok() + [rng.choice(good)])
+        if rng.random() < 0.2:
+            calls.append(bad() + [badn])
     return {"kind": "m", "side": side, "calls": calls}
+
+
+def gen_engine(rng, side):
+    """requests through the chain the engine assembles for a route (Config.Timeout 0 for side 3, > 0 for side 4):
+    a handler that panics on every request after a few good answers; or only statuses below 500 / implicit 200s"""
+    calls = []
+    shape = rng.random()
+    if shape < 0.6:
+        for _ in range(rng.randint(0, 5)):
+            calls.append(rng.choice([[0, 200], [1, 0], [2, 0]]) + [0])
+        for _ in range(rng.randint(90, 140)):
+            calls.append(rng.choice([[4, 0], [5, 0]]) + [0])
+    elif shape < 0.8:
+        for _ in range(rng.randint(80, 140)):
+            calls.append(rng.choice([[0, 200], [0, 404], [0, 499], [1, 0], [2, 0], [0, 301]]) + [0])
+    else:
+        for _ in range(rng.randint(60, 140)):
+            calls.append(rng.choice([[0, 200], [0, 500], [4, 0], [1, 0], [0, 502], [2, 0]]) + [0])
+    return {"kind": "m", "side": side, "calls": calls, "timeout": 0 if side == 3 else rng.choice([50, 3000])}
 
 
 def mixed_cases(rng, tier):
@@ -275,8 +320,18 @@ def mixed_cases(rng, tier):
     fixed = []
     for side in range(3):
         # the caller's deadline keeps expiring after a few cancelled calls: must be cut off; cancelled only: never
-        fixed.append({"kind": "m", "side": side, "calls": [[2, 0]] * rng.randint(0, 5) + [[1, 0]] * 120})
-        fixed.append({"kind": "m", "side": side, "calls": [[2, 0]] * 120 + [[0, 0]] * 10 + [[2, 0]] * 20})
+        fixed.append({"kind": "m", "side": side, "calls": [[2, 0, 0]] * rng.randint(0, 5) + [[1, 0, 0]] * 120})
+        fixed.append({"kind": "m", "side": side, "calls": [[2, 0, 0]] * 120 + [[0, 0, 0]] * 10 + [[2, 0, 0]] * 20})
+    for side in range(5):
+        # breaker identity: full method names / routes (every run, both name pairs for RPC)
+        fixed.append(gen_identity(rng, side))
+        if side < 3:
+            fixed.append(gen_identity(rng, side))
+    for side in (3, 4):
+        # the engine's own chain: a handler that panics on every request (every run, both timeout settings)
+        fixed.append({"kind": "m", "side": side, "timeout": 0 if side == 3 else 3000,
+                      "calls": [[0, 200, 0]] * rng.randint(0, 4) + [[4 + (i % 2), 0, 0] for i in range(120)]})
+        fixed.append(gen_engine(rng, side))
     return fixed + [gen_mixed(rng, i % 3) for i in range(k)]
 
 
@@ -299,7 +354,7 @@ def wire(c):
     if c["kind"] == "p" and c["which"] == 9:
         return {"arg": c["arg"], "stream": True}
     if c["kind"] == "m":
-        return {"calls": c["calls"], "stream": c["side"] == 2}
+        return {"calls": c["calls"], "stream": c["side"] == 2, "timeout": c.get("timeout", 0)}
     return c
 
 
@@ -308,17 +363,18 @@ def drive(cases, tier):
     logs = []
     groups = [("b", None, "./lib/breaker"), ("h", None, "./api/handler")] + [("p", w, PKG[w]) for w in sorted(PKG)]
     groups.append(("r", None, "./lib/breaker"))
-    groups += [("m", 0, "./rpc/internal/clientinterceptors"), ("m", 1, "./rpc/internal/serverinterceptors")]
+    groups += [("m", 0, "./rpc/internal/clientinterceptors"), ("m", 1, "./rpc/internal/serverinterceptors"), ("m", 3, "./api")]
+    mgroup = {0: 0, 1: 1, 2: 1, 3: 3, 4: 3}
     for kind, which, pkg in groups:
         if kind == "m":
-            idx = [i for i, c in enumerate(cases) if c["kind"] == "m" and (c["side"] == 0) == (which == 0)]
+            idx = [i for i, c in enumerate(cases) if c["kind"] == "m" and mgroup[c["side"]] == which]
         else:
             idx = [i for i, c in enumerate(cases) if c["kind"] == kind and (which is None or c["which"] == which)]
         if not idx:
             continue
         # the sqlx / redis / api-handler packages also hold other properties' drivers: ours is TestVerifDriverC01 there
         run = "^TestVerifDriverC01$" if pkg in ("./lib/store/sqlx", "./lib/store/redis", "./api/handler",
-                                               "./rpc/internal/serverinterceptors", "./rpc/internal/clientinterceptors") else "^TestVerifDriver$"
+                                               "./rpc/internal/serverinterceptors", "./rpc/internal/clientinterceptors", "./api") else "^TestVerifDriver$"
         if kind == "r":
             run = "^TestVerifDriverReg$"
         o, lg = run_driver(pkg, [wire(cases[i]) for i in idx], name="C01%s%s_%s" % (kind, "" if which is None else which, tier),
@@ -347,8 +403,13 @@ OUT = ["OK", "AcceptableErr", "UnacceptableErr", "Panics", "PanicsNil"]
 
 def encode(case, obs):
     if case["kind"] == "m":
-        calls = [cpair(cnat(c[0]), cZ(c[1])) for c in case["calls"]]
-        return "MCase %s %s %s" % (cnat(case["side"]), clist(calls), clist([cbool(r == 1) for r in obs.get("rej", [])]))
+        calls = [cpair(cnat(c[0]), cZ(c[1]), cnat(c[2])) for c in case["calls"]]
+        if case["side"] >= 3:
+            rows = obs.get("rows", [])
+            rej, st = [r[1] == 0 for r in rows], [r[0] for r in rows]
+        else:
+            rej, st = [r == 1 for r in obs.get("rej", [])], []
+        return "MCase %s %s %s %s" % (cnat(case["side"]), clist(calls), clist([cbool(r) for r in rej]), clist([cZ(x) for x in st]))
     if case["kind"] == "r":
         return "RCase %s" % clist([clist([cZ(v) for v in r]) for r in obs.get("rows", [])])
     if case["kind"] == "h":
@@ -390,7 +451,8 @@ def nontrivial(case, obs):
 
 def bucket(case, obs):
     if case["kind"] == "m":
-        out = ["kind:m", "m:side=%d" % case["side"], "m:cutoff=%s" % any(obs.get("rej", []))]
+        rej = obs.get("rej") or [1 - r[1] for r in obs.get("rows", [])]
+        out = ["kind:m", "m:side=%d" % case["side"], "m:cutoff=%s" % any(rej), "m:names=%d" % len({c[2] for c in case["calls"]})]
         out += sorted({"m:class=%d" % c[0] for c in case["calls"]})
         return out
     if case["kind"] == "r":
@@ -412,8 +474,10 @@ def bucket(case, obs):
 
 def explain(case, obs):
     if case["kind"] == "m":
-        return ("mixed stream through one RPC breaker interceptor (side 0 client, 1 server unary, 2 server stream) on a frozen "
-                "clock: a call was cut off although 2(total-5) <= 3*successes with Canceled and the other benign codes counted "
+        return ("mixed stream (side 0 client / 1 server unary / 2 server stream breaker interceptor over full method names; 3 / 4 the "
+                "HTTP engine's default chain with Config.Timeout 0 / > 0 over routes) on a frozen clock: a call was cut off although "
+                "its own name's excess was not positive (failures under another method / route moved it), the client did not get 500 "
+                "for a panicking handler / 503 when cut off, a call was cut off although 2(total-5) <= 3*successes with Canceled and the other benign codes counted "
                 "as successes, or at least 40 calls started with a drop ratio >= 1/2 (DeadlineExceeded of an expired caller "
                 "deadline, the other four codes, panics counted as failures) and none was ever cut off (c01_ctx_outcomes)")
     if case["kind"] == "r":
